@@ -77,6 +77,11 @@ var ErrLinkClosed = errors.New("sim: link closed")
 var ErrInjected = errors.New("sim: injected transport failure")
 
 func (e *Env) NewLink(name string, cfg LinkCfg) *Link {
+	if e.Free {
+		// free-running mode: writes never block on the transport (a blocked
+		// write under a goat lock plus a timer would stall the bubble's clock)
+		cfg.Cap = -1
+	}
 	l := &Link{env: e, Name: name, Cfg: cfg}
 	e.links = append(e.links, l)
 	return l
@@ -120,7 +125,18 @@ func (l *Link) deliver() {
 
 // Stall / Unstall disable and enable deliveries (slow or stuck peer).
 func (l *Link) Stall()   { l.mu.Lock(); l.stalled = true; l.mu.Unlock() }
-func (l *Link) Unstall() { l.mu.Lock(); l.stalled = false; l.mu.Unlock() }
+func (l *Link) Unstall() {
+	l.mu.Lock()
+	l.stalled = false
+	n := len(l.inflight)
+	free := l.env.Free
+	l.mu.Unlock()
+	if free {
+		for i := 0; i < n; i++ {
+			l.deliver()
+		}
+	}
+}
 
 // Pending returns the number of envelopes written but not yet read.
 func (l *Link) Pending() int {
@@ -331,9 +347,13 @@ func (l *Link) write(ctx context.Context, rpc *Rpc) error {
 	pw := &pendingWrite{rpc: carried, done: make(chan struct{})}
 	l.inflight = append(l.inflight, pw)
 	hooks := l.onWritten
+	free := l.env.Free && !l.stalled
 	l.mu.Unlock()
 	for _, h := range hooks {
 		h(n, rpc)
+	}
+	if free {
+		l.deliver()
 	}
 	if l.Cfg.Cap == 0 {
 		// rendezvous: return only once the envelope was read
